@@ -45,6 +45,146 @@ def lattice(rng, n_random, maxbits=400):
     return out + [-v for v in out if v]
 
 
+WB = [0, 1, 2, 3, (1 << 32) - 1, 1 << 32, (1 << 62) - 1, 1 << 62, (1 << 62) + 1, (1 << 63) - 1, 1 << 63, B64 - 2, B64 - 1]
+
+
+def rword(rng):
+    return rng.choice(WB) if rng.random() < 0.5 else rng.getrandbits(rng.choice([1, 8, 31, 32, 33, 62, 63, 64]))
+
+
+def numstr(rng, v, spare_ok=True):
+    """a number in the inner protocol: canonical (fixnum iff it fits); bignums sometimes with spare words"""
+    if -(1 << 62) <= v <= FIXMAX:
+        return "f:" + zhex(v)
+    return "b:%d:%s" % (-1 if v < 0 else 1, wstr(words_of(abs(v), rng.choice([0, 0, 1]) if spare_ok else 0)))
+
+
+INNER_FNS = ["add_digits", "sub_digits", "compare_abs", "bignum_add", "bignum_sub", "fxadd", "fxsub", "fxmul", "fxdiv",
+             "fxrem", "normalize", "bignum_mul", "bignum_mul", "quot_rem", "quot_rem", "quot_rem", "num_add", "num_sub", "num_mul",
+             "vm_add", "vm_sub"]
+
+
+def gen_inner(rng, pos, n):
+    reqs = []
+    sg = lambda: rng.choice(["1", "-1"])
+    small = [v for v in pos if v < (1 << 200)]
+    for i in range(n):
+        f = rng.choice(INNER_FNS)
+        a, b = rng.choice(pos), rng.choice(pos)
+        if rng.random() < 0.25 and a > 0:
+            b = a + rng.choice([-1, 0, 1])
+        wa, wb = words_of(a, rng.choice([0, 0, 1, 2])), words_of(b, rng.choice([0, 0, 1, 3]))
+        if f in ("add_digits", "sub_digits", "compare_abs"):
+            reqs.append("%s %s %s" % (f, wstr(wa), wstr(wb)))
+        elif f in ("bignum_add", "bignum_sub"):
+            reqs.append("%s %s %s %s %s" % (f, sg(), wstr(wa), sg(), wstr(wb)))
+        elif f == "fxadd":
+            reqs.append("fxadd %s %x" % (wstr(wa), rword(rng)))
+        elif f == "fxsub":
+            w = rword(rng)
+            reqs.append("fxsub %s %s %x" % (sg(), wstr(wa), w))
+        elif f == "fxmul":
+            reqs.append("fxmul %s %x %d" % (wstr(wa), rword(rng), rng.choice([0, 0, 0, 1, 2])))
+        elif f == "fxdiv":
+            w = rword(rng) or 1
+            off = 1 if (a >= B64 and rng.random() < 0.2) else 0
+            reqs.append("fxdiv %s %x %d" % (wstr(wa), w, off))
+        elif f == "fxrem":
+            bv = rng.choice([0, 1, 2, 3, 4, 7, 8, 10, 1 << 31, 1 << 32, (1 << 32) + 1, 1 << 61, (1 << 61) + 1, FIXMAX, 1 << 62, rng.getrandbits(rng.choice([3, 20, 40, 62]))])
+            if bv > (1 << 62) or (bv == (1 << 62) and rng.random() < 0.5):
+                bv = FIXMAX
+            if rng.random() < 0.4:
+                bv = -bv
+            if bv == (1 << 62):
+                bv = -bv
+            reqs.append("fxrem %s %s %s" % (sg(), wstr(wa), zhex(bv)))
+        elif f == "normalize":
+            if rng.random() < 0.7:
+                v = rng.choice([0, 1, FIXMAX - 1, FIXMAX, FIXMAX + 1, FIXMAX + 2, B64 - 1, rng.getrandbits(64)])
+                wa = words_of(v, rng.choice([0, 0, 1, 2]))
+            reqs.append("normalize %s %s" % (sg(), wstr(wa)))
+        elif f == "bignum_mul":
+            if rng.random() < 0.5:
+                a, b = rng.choice(small), rng.choice(small)
+                wa, wb = words_of(a, rng.choice([0, 0, 1])), words_of(b, rng.choice([0, 0, 1]))
+            reqs.append("bignum_mul %s %s %s %s" % (sg(), wstr(wa), sg(), wstr(wb)))
+        elif f == "quot_rem":
+            r = rng.random()
+            if r < 0.3:      # near-multiples: quotient estimate over/undershoots
+                q = rng.choice(pos)
+                a = b * q + rng.choice([0, 1, -1, b - 1 if b else 0])
+                a = abs(a)
+                wa = words_of(a, rng.choice([0, 0, 1]))
+            elif r < 0.4:
+                b = rword(rng)
+                wb = words_of(b, rng.choice([0, 1]))
+            reqs.append("quot_rem %s %s %s %s" % (sg(), wstr(wa), sg(), wstr(wb)))
+        else:
+            x = rng.choice(pos) * rng.choice([1, -1])
+            y = rng.choice(pos) * rng.choice([1, -1])
+            r = rng.random()
+            if r < 0.35:     # fixnum pairs around the overflow boundary
+                x = rng.choice([0, 1, -1, FIXMAX, -FIXMAX - 1, FIXMAX - 1, -FIXMAX, 1 << 61, -(1 << 61), (1 << 31), -(1 << 31), 3037000500, rng.getrandbits(62) - (1 << 61)])
+                y = rng.choice([0, 1, -1, 2, -2, FIXMAX, -FIXMAX - 1, 1 << 61, -(1 << 61), (1 << 31), -(1 << 31), 3037000500, rng.getrandbits(62) - (1 << 61)])
+            elif r < 0.5:    # bignum +- fixnum crossing back into fixnum range / across a word boundary
+                x = rng.choice([FIXMAX + 1, -FIXMAX - 2, B64, -B64, B64 - 1, 1 << 128, (1 << 128) - 1, -(1 << 128)])
+                y = rng.choice([1, -1, 2, -2, FIXMAX, -FIXMAX - 1, rng.getrandbits(62) - (1 << 61)])
+                if rng.random() < 0.5:
+                    x, y = y, x
+            elif r < 0.6:
+                y = -x + rng.choice([0, 1, -1, FIXMAX, -FIXMAX - 1])
+            if f == "num_mul" and max(abs(x), abs(y)).bit_length() > 1200:
+                y = rng.choice([3, -7, FIXMAX, 1 << 64, -(1 << 70) + 1])
+            reqs.append("%s %s %s" % (f, numstr(rng, x), numstr(rng, y)))
+    return reqs
+
+
+def run_harness(ctx, emb, reqs, env, timeout=40, max_hangs=3):
+    """feed reqs to the embedding harness; a request that hangs or kills the process is answered
+    'TIMEOUT' / 'CRASH rc' and the harness is restarted on the following request"""
+    out = [None] * len(reqs)
+    pos, hangs = 0, 0
+    while pos < len(reqs):
+        try:
+            r = subprocess.run([emb], input="\n".join(reqs[pos:]) + "\n", capture_output=True, text=True, env=env, timeout=timeout)
+            lines, rc, hung = r.stdout.split("\n"), r.returncode, False
+        except subprocess.TimeoutExpired as e:
+            so = e.stdout.decode() if isinstance(e.stdout, bytes) else (e.stdout or "")
+            lines, rc, hung = so.split("\n"), None, True
+        done = lines[:-1]           # complete lines only
+        for k, l in enumerate(done):
+            if pos + k < len(reqs):
+                out[pos + k] = l
+        pos += len(done)
+        if pos >= len(reqs):
+            break
+        if hung or rc != 0:
+            out[pos] = "TIMEOUT" if hung else "CRASH rc=%s" % rc
+            pos += 1
+            hangs += 1
+            if hangs >= max_hangs:
+                ctx.note("inner stream cut after %d hangs/crashes of the harness" % hangs)
+                break
+        elif not done:
+            ctx.broken("inner-correspondence:C04", "embedding harness stopped answering at request %d" % pos)
+            break
+    return out
+
+
+def run_outer(ctx, d, exprs, timeout=60, chunk=1000, max_hangs=3):
+    """scm.run_cases in slices, giving up on the stream after a few hangs (each costs `timeout`)"""
+    res, hangs = [], 0
+    for lo in range(0, len(exprs), chunk):
+        part = scm.run_cases(d, exprs[lo:lo + chunk], timeout=timeout, chunk=chunk)
+        res.extend(part)
+        hangs += sum(1 for x in part if x == "TIMEOUT")
+        if hangs >= max_hangs:
+            ctx.note("outer stream cut after %d hangs" % hangs)
+            res.extend(["SKIPPED"] * (len(exprs) - len(res)))
+            break
+    return res
+
+
 def words_of(v, spare=0):
     ws = []
     while True:
@@ -80,26 +220,16 @@ def run(ctx):
     pos = [v for v in lat if v >= 0]
     # ------------------------------------------------------------------ inner correspondence
     emb = B.cc_embed(d, os.path.join(os.path.dirname(__file__), "..", "harness", "embed_c04.c"), os.path.join(d, "embed_c04"))
-    reqs = []
-    fns = ["add_digits", "sub_digits", "compare_abs"]
-    for i in range(n_in):
-        a, b = rng.choice(pos), rng.choice(pos)
-        if rng.random() < 0.25:
-            b = a + rng.choice([-1, 0, 1]) if a > 0 else b
-        wa, wb = words_of(a, rng.choice([0, 0, 1, 2])), words_of(b, rng.choice([0, 0, 1, 3]))
-        f = rng.choice(fns + ["bignum_add", "bignum_sub"])
-        if f in fns:
-            reqs.append("%s %s %s" % (f, wstr(wa), wstr(wb)))
-        else:
-            reqs.append("%s %s %s %s %s" % (f, rng.choice(["1", "-1"]), wstr(wa), rng.choice(["1", "-1"]), wstr(wb)))
+    reqs = gen_inner(rng, pos, n_in)
     mo = ctx.run_model(exe, reqs)
-    r = subprocess.run([emb], input="\n".join(reqs) + "\n", capture_output=True, text=True, env=B.chibi_env(d), timeout=600)
-    io = r.stdout.split("\n")
-    if r.returncode != 0 or len(io) < len(reqs):
-        ctx.broken("inner-correspondence:C04", "embedding harness died rc=%s after %d answers: %s" % (r.returncode, len(io), r.stderr[-500:]))
+    io = run_harness(ctx, emb, reqs, B.chibi_env(d))
     for q, m, i in zip(reqs, mo, io):
         ctx.count(1, key=q, nontrivial=("," in q))
+        ctx.cov.setdefault("inner_by_function", {})
+        ctx.cov["inner_by_function"][q.split()[0]] = ctx.cov["inner_by_function"].get(q.split()[0], 0) + 1
         ctx.cov["traces_validated_against_impl"] += 1
+        if i is None:
+            continue          # stream cut after repeated hangs (already reported)
         if m != i:
             # the model and the C function differ on this word array: is the C result wrong w.r.t. Z?
             verdict = _judge_inner(q, i)
@@ -132,10 +262,12 @@ def run(ctx):
             specq.append("spec1 %d %s" % (idx, zhex(a)))
             meta.append((tmpl, a, None))
     so = ctx.run_model(exe, specq)
-    io = scm.run_cases(d, exprs)
+    io = run_outer(ctx, d, exprs)
     for e, s, i, m in zip(exprs, so, io, meta):
         big = abs(m[1]) > FIXMAX or (m[2] is not None and abs(m[2]) > FIXMAX)
         ctx.count(1, key=(m[0], m[1], m[2]), nontrivial=big)
+        if i == "SKIPPED":
+            continue
         ok, why = _agree(s, i)
         if not ok:
             ctx.violation("arith:" + m[0].split()[0].strip("("), input=e, expected=s, observed=i, why=why,
@@ -195,6 +327,56 @@ def _judge_inner(q, out):
             a = int(f[1]) * _val(f[2])
             b = int(f[3]) * _val(f[4])
             return int(s) * _val(ws) == (a + b if f[0] == "bignum_add" else a - b)
+        big = lambda sg, ws: int(sg) * _val(ws)
+        if f[0] == "fxadd":
+            return _val(out) == _val(f[1]) + int(f[2], 16)
+        if f[0] == "fxsub":
+            s_, ws = out.split(" ")
+            return int(s_) * _val(ws) == big(f[1], f[2]) - int(f[1]) * int(f[3], 16)
+        if f[0] == "fxmul":
+            return _val(out) == _val(f[1]) * int(f[2], 16) * (1 << (64 * int(f[3])))
+        if f[0] == "fxdiv":
+            ws, r_ = out.split(" ")
+            off = int(f[3]); b = int(f[2], 16); a = _val(f[1])
+            lowmask = (1 << (64 * off)) - 1
+            return (_val(ws) >> (64 * off)) * b + int(r_, 16) == (a >> (64 * off)) and 0 <= int(r_, 16) < b and (_val(ws) & lowmask) == (a & lowmask)
+        if f[0] == "fxrem":
+            b = _z(f[3])
+            if b == 0:
+                return out == "EXC"
+            a = big(f[1], f[2])
+            return _num(out) == (abs(a) % abs(b)) * (1 if a >= 0 else -1)
+        if f[0] == "normalize":
+            a = big(f[1], f[2])
+            return _num(out) == a and out.startswith("f:") == (-(1 << 62) <= a <= FIXMAX)
+        if f[0] == "bignum_mul":
+            s_, ws = out.split(" ")
+            return int(s_) * _val(ws) == big(f[1], f[2]) * big(f[3], f[4])
+        if f[0] == "quot_rem":
+            a, b = big(f[1], f[2]), big(f[3], f[4])
+            if b == 0:
+                return out == "DIVZERO"
+            res, ops = out.split(" | ")
+            q, r_ = [_num(x) for x in res.split(" ")]
+            same = ops == "%s %s %s %s" % (f[1], f[2], f[3], f[4])
+            return same and a == q * b + r_ and abs(r_) < abs(b) and (r_ == 0 or (r_ < 0) == (a < 0))
+        if f[0] in ("num_add", "num_sub", "num_mul", "vm_add", "vm_sub"):
+            x, y = _num(f[1]), _num(f[2])
+            if f[0] == "num_sub" and f[1][0] == "f" and f[2][0] == "f" and not (-(1 << 62) <= x - y <= FIXMAX):
+                return True       # raw sexp_fx_sub outside its domain ("VM catches this case"): no claim
+            e = x + y if f[0].endswith("add") else x - y if f[0].endswith("sub") else x * y
+            return _num(out) == e and out.startswith("f:") == (-(1 << 62) <= e <= FIXMAX)
     except Exception:
         return False
     return False
+
+
+def _z(h):
+    return -int(h[1:], 16) if h.startswith("-") else int(h, 16)
+
+
+def _num(t):
+    p = t.split(":")
+    if p[0] == "f":
+        return _z(p[1])
+    return int(p[1]) * _val(p[2])
